@@ -81,6 +81,49 @@ CHECKS.update({
     ),
 })
 
+CHECKS.update({
+    "C10": dict(
+        category="exploration",
+        technique="exhaustive product of subjects (all binaries B[a:b], all values of all DSL trees <=2 ops) x display options (line_bytes 1..64 x addrbase x sizebase x display_bytes x verbose x colour x unicode), dumps parsed back by an independent dump grammar parser and compared with the buffer bytes; big-number JSON decoder for JSON output",
+        text="Every binary B[a:b] (0<=a<=b<=40 bits plus tail ranges, buffers of 0/1/5/17/70 bytes, and 1000/1296/4096 byte buffers for address width at exact powers of the base) is dumped with hd for every line_bytes 1..64 x display_bytes grid x addrbase (other options rotating; the full 76,200 configuration product on 14 representative binaries; thorough: full product everywhere); every value of every DSL tree with <=2 ops (thorough 3) incl. nested buffers is dumped with d/dd/dv/ddv over a systematic option grid. A parser of the dump grammar recovers (address, byte) pairs per row and buffer root: every hex pair and ASCII character must equal the buffer byte at the printed row address + column, non-truncated values must show each of their bytes exactly once, verbose range/size text must equal the value's range in the given base (math/big formatter). JSON output (-V, tojson, tovalue, compact/indented, colour on/off) of the numeric pool incl. 2^64, 10^30, 5e-324 is parsed by a big-number decoder and compared exactly.",
+        design_ref="§C10",
+        note="Bulk dumps call the exported Display method with options built once per configuration through fq's own options(); every configuration is also run once through the real hd/d/dd/dv/ddv functions and must print byte-identical output. Ranges and nested buffer contents are taken from C03/C04/C09. Known finding: nested buffer address column truncation, pinned by 138 goldens.",
+        engine="enum",
+    ),
+    "C11": dict(
+        category="exploration",
+        technique="grammar-directed exhaustive enumeration of jq programs by construct count (96 constructs incl. fq literal extensions) through parse -> print -> parse on the gojq fork and through fq's own query rewrite path; differential evaluation CLI path vs direct evaluation",
+        text="All programs of size 0 and 1 over the full atom alphabet (104 term atoms, 15 pattern atoms), size 2 and 3 with 1-2 atoms per hole, built from all 96 constructs of the parser grammar (every operator and precedence, unary minus, ?, try/catch, binds and destructuring alternatives, reduce/foreach/label/break, if/elif, function definitions, import/include, string interpolation and @formats, all object key forms, raw strings, 0x/0o/0b literals with digit separators): printed form must parse to the same tree modulo redundant parentheses and be a fixpoint, directly and through _query_fromstring|_query_tostring and _eval_query_rewrite (compared with an independently built INPUT | try (PROGRAM) catch H | OUT tree); ~13k programs plus a 552 program capture set are run through the command line path in null-input, normal and slurp mode and compared (outputs as canonical JSON, exit status 0/5/3) with direct evaluation of the bare text.",
+        design_ref="§C11",
+        note="Size = number of grammar constructs applied; atom policy per level is listed in evidence. Programs calling input/inputs/display functions are excluded from the semantic oracle. Known findings: an included module can capture the wrapper's names; two printer defects in the gojq fork (dependency).",
+        engine="enum",
+    ),
+    "C14": dict(
+        category="exploration",
+        technique="exhaustive enumeration of input grids (all byte strings <=3 over an 8 byte alphabet also as non byte aligned binaries, all strings <=3 runes over 13 runes, integers x bases 2..64, all JSON values <=4 nodes, all single-character edits of well formed encodings) through every encoder/decoder pair, against inverse laws and independent reference codecs",
+        text="hex, 4 base64 variants and 9 hashes on 4753 binaries; urlencode/urlpath/urlquery/url, iso8859_1, utf8/16 variants, xmlentities on 2380 strings and 16k query objects; to/from_radix on 98 integers x 63 bases; tojson/to_jq/to_yaml/to_toml/to_jsonl/to_xml/to_csv and their decoders on every JSON value with <=4 nodes over 14 leaves restricted to each format's domain; 12,832 malformed texts (every single character deletion/insertion/substitution of 5 seeds per decoder) must give an error or a value that re-encodes to the same text. References: own RFC 4648/3986/Unicode codecs cross-checked against the Go standard library at start, crypto/*, x/crypto, net/url, encoding/json|xml|csv, python hashlib in thorough.",
+        design_ref="§C14",
+        note="Equality is exact canonical JSON (big integers as digits). Known findings are library level (yaml/toml big integers as strings pinned by goldens, BurntSushi/toml empty key arrays, csv comment character and blank line for a single empty field from encoding/csv, xml text before the root, C1 numeric references).",
+        engine="enum",
+    ),
+    "C15": dict(
+        category="fault_enumeration",
+        technique="full product of a writer configuration grid (Go standard library writers + hand-written gzip/png/zip64/wav writers) decoded by fq and compared field by field; every single-byte corruption (2 masks) of every checksummed byte and stored checksum of every generated file <= 300 bytes",
+        text="10,042 grid points over gzip (2 writers x levels x all 16 optional header field subsets x members x names x payloads), zip (store/deflate x data descriptor x comment; forced zip64), tar (USTAR/PAX/GNU incl. 100/101/255 char names), png (sizes x colour types x depths x text chunks), gif, wav are decoded with the forced format and with probe: names, sizes, header fields, dimensions, decompressed payloads (incl. 70000 byte and nested gzip/json payloads) must equal what was written and every checksum of an intact file must say valid. 141,342 corruptions: each must yield an invalid checksum, a decode error, or a clean tree the standard library reader confirms as truthful.",
+        design_ref="§C15",
+        note="bzip2 is not covered (no writer offline). gzip ISIZE is treated as a length, not a checksum. Known findings: gzip FLG bit order reversed and zip entry CRC never validated and gif local colour table order (all pinned by goldens), gzip names read as UTF-8 instead of ISO 8859-1, zip stored entry with data descriptor.",
+        engine="enum",
+    ),
+    "C16": dict(
+        category="exploration",
+        technique="exhaustive enumeration of all JSON-like values <=3 nodes (thorough 4) over a boundary leaf set x every wire encoding of each value from independent spec-derived encoders x every truncation point x trailing data, decoded by fq and compared with the source value",
+        text="msgpack, cbor (all five length forms, indefinite strings/arrays/maps with every <=2 chunk split, half/single/double floats), bson, bencode, ASN.1 BER (definite short/long, indefinite constructed, REAL), json, jsonl, yaml (flow, block, !!binary), toml, xml (object and array mode), csv: 43,563 values, 310,857 encodings; from_F|torepr (binary) / from_F (text) must equal the value exactly (integers as big numbers, floats by bits); all 4.7M proper prefixes of encodings <=64 bytes must be decode errors; trailing data must be an error for text formats and exactly one gap field with an unchanged tree for binary formats. Encoders are anchored to RFC 8949 appendix A, bsonspec, msgpack and BitTorrent vectors and encoding/asn1.",
+        design_ref="§C16",
+        note="3-node values in quick vary one node's wire form at a time (full product in thorough). Known findings: cbor indefinite string break byte (pinned by appendix_a golden), asn1_ber zero length taken as indefinite (pinned by tc44/tc45 goldens), asn1 constructed string without segments, bencode integers beyond int64.",
+        engine="enum",
+    ),
+})
+
 NOT_YET = {
 }
 
